@@ -27,19 +27,6 @@ open Scalar
 
 variable {α : Type} [Scalar α]
 
-theorem foldl_ttUpdate_shape (p : Par2 α) (slow : Grid2 α) (l : List (Nat × Nat × Dir2)) (tt : Grid2 α) :
-    (l.foldl (ttUpdate p slow) tt).size = tt.size
-      ∧ ∀ k, ((l.foldl (ttUpdate p slow) tt).getD k #[]).size = (tt.getD k #[]).size := by
-  induction l generalizing tt with
-  | nil => exact ⟨rfl, fun _ => rfl⟩
-  | cons x xs ih =>
-    simp only [List.foldl_cons]
-    obtain ⟨h1, h2⟩ := ih (ttUpdate p slow tt x)
-    have e1 : (ttUpdate p slow tt x).size = tt.size := by unfold ttUpdate; rw [Grid2.size_set]
-    have e2 : ∀ k, ((ttUpdate p slow tt x).getD k #[]).size = (tt.getD k #[]).size := by
-      intro k; unfold ttUpdate; rw [Grid2.row_set]
-    exact ⟨by rw [h1, e1], fun k => by rw [h2 k, e2 k]⟩
-
 theorem ttUpdate_get_self (p : Par2 α) (slow : Grid2 α) (g : Grid2 α) (x : Nat × Nat × Dir2)
     (hin : x.1 < g.size ∧ x.2.1 < (g.getD x.1 #[]).size) :
     (ttUpdate p slow g x).get zero x.1 x.2.1 =
